@@ -105,9 +105,13 @@ class RandomOracle:
             r = rng.random()
             if r < p.p_cancel and p.faults == "all":
                 return Ans("raise", rng.choice(CANCEL_KINDS), dur=d)
+            last = getattr(self, "_last_nested", None)
+            if last is not None and p.faults != "none" and rng.random() < 0.25:
+                return Ans("raise", last, dur=d)           # the very same error OBJECT again (Env caches them)
             if r < p.p_cancel + p.p_nested and p.faults != "none":
                 t = rng.choice(["abort", "exhausted", "circuitOpen"])
                 tok = f"{t}:{self.fresh()}" + (f":{rng.choice(['-'] + CLASSES)}" if t == "exhausted" else "")
+                self._last_nested = tok
                 return Ans("raise", tok, dur=d)
             if rng.random() < p.p_success:
                 if rng.random() < 0.06:
